@@ -42,3 +42,32 @@ Proof.
 Qed.
 Lemma rw2_accepted : trace_ok rw_cfg 0 (model_trace rw_cfg 0 rw_evs2) = true.
 Proof. vm_compute. reflexivity. Qed.
+
+(* ---- a model trace that position 15 (e_early) rejects -----------------------------------------------------------------------------------------------------
+   Retry count 1, one size class.  A worker is told to run a task (m_reissue[w] = ([0], 0)); a second Execute of the same
+   digest attaches operation 1 to the task in flight; the worker asks again: the model counts t_retry = 1 and tells it
+   again, the monitor sees the operation set [0;1] differ from [0] and restarts at 0; the worker asks a third time: the
+   model has reached the limit and fails the task with INTERNAL, the monitor reads m_reissue[w] = ([0;1], 0) with
+   0 <> 1 and reports "C06:task-failed-before-retry-limit".  Every other position accepts the trace. *)
+Definition rw3_cfg : config := mkConfig 5 10 30 10 60 1 20.
+Definition rw3_evs : list (event * list (nat * wref)) :=
+  [ (ERegister 0 (mkPK [] 0) [] 0 0 [1%N] 1, []);
+    (EStartSync 1 (mkSync rw_w WIdle false) 2, []);
+    (EStartExecute 2 (mkExec [] 0 5 false 0 [] (0%nat, 10, 100, Learner 1 None None)) 3, []);
+    (EEnter 1 4, []);
+    (EStartExecute 3 (mkExec [] 0 5 false 0 [9%N] (0%nat, 10, 100, Learner 2 None None)) 5, []);
+    (EStartSync 4 (mkSync rw_w WIdle false) 6, []);
+    (EStartSync 5 (mkSync rw_w WIdle false) 7, []) ].
+Lemma rw3_hypotheses : selectors_in_range (init rw3_cfg 0) rw3_evs /\ fresh_calls [] rw3_evs /\ bg_scripts_ok rw3_evs /\ learner_ids_unique rw3_evs /\ causes_ok rw3_evs.
+Proof.
+  split; [apply selectors_in_rangeb_sound; vm_compute; reflexivity|]. split; [cbn; intuition congruence|].
+  split; [apply bg_scripts_okb_sound; vm_compute; reflexivity|]. split; [apply learner_ids_uniqueb_sound; vm_compute; reflexivity|apply causes_okb_sound; vm_compute; reflexivity].
+Qed.
+Lemma rw3_outputs : snd (run (init rw3_cfg 0) rw3_evs) =
+  [[ORet 0 0]; []; [OGhost GSelect; OMsg 2 0 3 None]; [OSync 1 (DExec 5 false 100 3 []) 14];
+   [OGhost GSelAbandoned; OMsg 3 1 3 None]; [OSync 4 (DExec 5 false 100 3 []) 16]; [OGhost (GAbandoned 1)]].
+Proof. vm_compute. reflexivity. Qed.
+Lemma rw3_rejected : trace_ok rw3_cfg 0 (model_trace rw3_cfg 0 rw3_evs) = false /\ trace_sub [15%nat] rw3_cfg 0 (model_trace rw3_cfg 0 rw3_evs) = false.
+Proof. split; vm_compute; reflexivity. Qed.
+Lemma rw3_others_accept : trace_sub [0;1;2;3;4;5;6;7;8;9;10;11;12;13;14;16;17;18]%nat rw3_cfg 0 (model_trace rw3_cfg 0 rw3_evs) = true.
+Proof. vm_compute. reflexivity. Qed.
